@@ -15,7 +15,7 @@ OUT="$V/.cache/try_seed.$P.out"; ERR="$V/.cache/try_seed.$P.err"
 ./check "$P" --tier "$TIER" > "$OUT" 2> "$ERR"; RC=$?
 git -C "$R" checkout -- . ; git -C "$R" clean -fdq
 cp "evidence/$P.json" "seeded/.last-evidence-$P.json" 2>/dev/null; mv "$V/.cache/evidence-$P.keep" "evidence/$P.json" 2>/dev/null
-(python3 tools/extract.py --repo "$R" >/dev/null 2>&1)
+(python3 tools/extract.py --repo "$R" >/dev/null 2>&1; python3 tools/extract_cfg.py --repo "$R" >/dev/null 2>&1)
 grep -E "^VIOLATION|^KNOWN" "$OUT" | cut -c1-200
 tail -3 "$ERR" | cut -c1-400
 echo "rc=$RC"
